@@ -32,6 +32,7 @@ fn run_line(line: &str) -> String {
         "CSRF" => pkce::csrf(&ws[1..]),
         "RANDBULK" => pkce::randbulk(&ws[1..]),
         "RANDPOS" => pkce::randpos(&ws[1..]),
+        "FDSTARVED" => pkce::fdstarved(),
         "SECEQ" => pkce::seceq(&ws[1..]),
         "URLT" => urlt::urlt(&ws[1..]),
         "URLP" => urlt::urlp(&ws[1..]),
